@@ -3,6 +3,7 @@ CONSTANTS
   Att = {1,2,3}
   Keys = {"", "K1", "K2"}
   MaxReq = 3
+  MaxHangups = 1
   PerReqKey = TRUE
   EmitEdges = FALSE
 PROPERTIES PeerCancelled ShutdownEnds
